@@ -92,24 +92,28 @@ def run(ctx):
 
 def check_subkey_path(ctx, p, key, msgs, ALW, PERM, seen_kinds):
     ent = [e for e in p.effects if e.kind == "loop_enter"]
-    whole = False
-    lk = None
-    for e in ent:
-        for var, v in e.value.items():
-            if v == msgs:
-                whole = True
-                lk = e.name
-    if not whole:
+    over = [e for e in ent if any(v == msgs for v in e.value.values())]
+    if not over:
         ctx.ob("R07.3", key + "/non-admin", False,
                detail="non-admin relay path does not iterate the whole msgs list (loops: %s)" % [sorted(e.value.items())[:2] for e in ent])
         return
-    # the iteration element
-    elem = None
-    for c in p.conds:
-        t = c[0]
-        if t[0] == "calli" and t[1] == "next" and c[1] == "Some" and t[2][0][0] == "loopvar" and t[2][0][1] == lk and t[2][0][3] == 0:
-            elem = ("vfield", t, "Some", "0")
+    # the loop that examines the messages; a separate loop that only accumulates the response (`fold(Response::new(), add_message)`)
+    # is the relay itself and is judged by response_entries above
+    def relays(e):
+        return any(isinstance(v, tuple) and v and v[0] == "resp" for v in e.value.values())
+    checkers = [e for e in over if not relays(e)] or over
+    lk = checkers[0].name
+
+    def first_elem(name):
+        for c in p.conds:
+            t = c[0]
+            if t[0] == "calli" and t[1] == "next" and c[1] == "Some" and t[2][0][0] == "loopvar" and t[2][0][1] == name and t[2][0][3] == 0:
+                return ("vfield", t, "Some", "0")
+        return None
+    elem = first_elem(lk)
     if elem is None:
+        if any(first_elem(e.name) is not None for e in over):
+            return          # one loop finds the unmodified list empty, another finds an element in it: not an execution
         ctx.ob("R07.3", key + "/non-admin/empty list", True, sample={"path": "zero messages relayed"})
         return
     kind = None
